@@ -244,10 +244,9 @@ func recogniseOrCombinator(p *Program, m *RouterModel) (ok bool, why string) {
 		return false, "authMiddlewareOr: handler is not an http.HandlerFunc"
 	}
 	inner, okf2 := conv.Args[0].(*ast.FuncLit)
-	if !okf2 || len(inner.Body.List) != 2 {
-		return false, "authMiddlewareOr: inner handler is not {for …; w.WriteHeader(401)}"
+	if !okf2 {
+		return false, "authMiddlewareOr: the handler is not a function literal"
 	}
-	var w, req types.Object
 	var names []*ast.Ident
 	for _, f := range inner.Type.Params.List {
 		names = append(names, f.Names...)
@@ -255,69 +254,10 @@ func recogniseOrCombinator(p *Program, m *RouterModel) (ok bool, why string) {
 	if len(names) != 2 {
 		return false, "authMiddlewareOr: inner handler params"
 	}
-	w, req = info.Defs[names[0]], info.Defs[names[1]]
-	rs, okrs := inner.Body.List[0].(*ast.RangeStmt)
-	if !okrs || !c.isObj(rs.X, fns) || rs.Value == nil || len(rs.Body.List) != 3 {
-		return false, "authMiddlewareOr: loop is not `for _, fn := range fns` with three statements"
-	}
-	fn := info.Defs[rs.Value.(*ast.Ident)]
-	// if fn == nil { continue }
-	if1, ok1 := rs.Body.List[0].(*ast.IfStmt)
-	if !ok1 || if1.Else != nil || len(if1.Body.List) != 1 {
-		return false, "authMiddlewareOr: nil authenticators are not skipped with `if fn == nil { continue }`"
-	}
-	be, okb := if1.Cond.(*ast.BinaryExpr)
-	br, okbr := if1.Body.List[0].(*ast.BranchStmt)
-	if !okb || be.Op != token.EQL || !c.isObj(be.X, fn) || !isNilIdent(be.Y) || !okbr || br.Tok != token.CONTINUE {
-		return false, "authMiddlewareOr: nil authenticators are not skipped with `if fn == nil { continue }`"
-	}
-	// authReq, ok := fn.Auth(r)
-	as, oka := rs.Body.List[1].(*ast.AssignStmt)
-	if !oka || as.Tok != token.DEFINE || len(as.Lhs) != 2 || len(as.Rhs) != 1 {
-		return false, "authMiddlewareOr: expected `authReq, ok := fn.Auth(r)`"
-	}
-	call, okcl := as.Rhs[0].(*ast.CallExpr)
-	if !okcl || len(call.Args) != 1 || !c.isObj(call.Args[0], req) {
-		return false, "authMiddlewareOr: authenticator is not called with the incoming request"
-	}
-	sel, oks := call.Fun.(*ast.SelectorExpr)
-	if !oks || sel.Sel.Name != "Auth" || !c.isObj(sel.X, fn) {
-		return false, "authMiddlewareOr: authenticator call is not fn.Auth(r)"
-	}
-	authReq, okv := info.Defs[as.Lhs[0].(*ast.Ident)], info.Defs[as.Lhs[1].(*ast.Ident)]
-	// if ok { next.ServeHTTP(w, authReq); return }
-	if2, ok2 := rs.Body.List[2].(*ast.IfStmt)
-	if !ok2 || if2.Else != nil || !c.isObj(if2.Cond, okv) || len(if2.Body.List) != 2 {
-		return false, "authMiddlewareOr: acceptance branch is not `if ok { next.ServeHTTP(w, authReq); return }`"
-	}
-	es, oke := if2.Body.List[0].(*ast.ExprStmt)
-	r3, okr3 := if2.Body.List[1].(*ast.ReturnStmt)
-	if !oke || !okr3 || len(r3.Results) != 0 {
-		return false, "authMiddlewareOr: acceptance branch does not serve once and return"
-	}
-	sc, oksc := es.X.(*ast.CallExpr)
-	if !oksc || len(sc.Args) != 2 || !c.isObj(sc.Args[0], w) || !c.isObj(sc.Args[1], authReq) {
-		return false, "authMiddlewareOr: the handler does not receive the request returned by the authenticator"
-	}
-	ssel, okss := sc.Fun.(*ast.SelectorExpr)
-	if !okss || ssel.Sel.Name != "ServeHTTP" || !c.isObj(ssel.X, next) {
-		return false, "authMiddlewareOr: acceptance branch does not call next.ServeHTTP"
-	}
-	// w.WriteHeader(401)
-	es2, oke2 := inner.Body.List[1].(*ast.ExprStmt)
-	if !oke2 {
-		return false, "authMiddlewareOr: rejection is not w.WriteHeader(401)"
-	}
-	wc, okwc := es2.X.(*ast.CallExpr)
-	if !okwc || len(wc.Args) != 1 {
-		return false, "authMiddlewareOr: rejection is not w.WriteHeader(401)"
-	}
-	wsel, okws := wc.Fun.(*ast.SelectorExpr)
-	if !okws || wsel.Sel.Name != "WriteHeader" || !c.isObj(wsel.X, w) {
-		return false, "authMiddlewareOr: rejection is not w.WriteHeader(401)"
-	}
-	if k, ok := c.constInt(wc.Args[0]); !ok || k != 401 {
-		return false, "authMiddlewareOr: rejection status is not 401"
+	w, req := info.Defs[names[0]], info.Defs[names[1]]
+	// behaviour of the handler body, whatever its spelling (authcomb.go)
+	if why := analyseAuthHandler(p, c, inner.Body, w, req, next, fns); why != "" {
+		return false, why
 	}
 	// middlewares(h, ms...) wraps each once
 	md := declOfObj(p, m.WrapFn)
@@ -325,10 +265,18 @@ func recogniseOrCombinator(p *Program, m *RouterModel) (ok bool, why string) {
 		return false, "wrap helper used by the route leaves not found"
 	}
 	mps := paramObjs(info, md)
-	if len(mps) != 2 || len(md.Body.List) != 2 {
+	if len(mps) != 2 || len(md.Body.List) < 2 {
 		return false, "middlewares(): unexpected shape"
 	}
-	fs, okfs := md.Body.List[0].(*ast.ForStmt)
+	// [temporaries…] loop ; return h
+	nb := len(md.Body.List)
+	for _, st := range md.Body.List[:nb-2] {
+		if as, ok := st.(*ast.AssignStmt); !ok || as.Tok != token.DEFINE {
+			return false, "middlewares(): unexpected statement before the loop"
+		}
+	}
+	fs, okfs := md.Body.List[nb-2], true
+	before := md.Body.List[:nb-2]
 	// the method the wrap helper calls on each element, and the type the combinator returns
 	wrapMethod := ""
 	if sig, ok := m.WrapFn.Type().(*types.Signature); ok && sig.Variadic() {
@@ -341,10 +289,10 @@ func recogniseOrCombinator(p *Program, m *RouterModel) (ok bool, why string) {
 	if wrapMethod == "" {
 		return false, "wrap helper does not take a variadic list of a one-method interface"
 	}
-	if !okfs || !reverseLoopOver(c, fs, mps[0], mps[1], wrapMethod) {
+	if !okfs || !reverseLoopOver(c, fs, before, mps[0], mps[1], wrapMethod) {
 		return false, "middlewares(): not the reverse loop `for i := len(ms)-1; i >= 0; i-- { h = ms[i].Middleware(h) }`"
 	}
-	mr, okmr := md.Body.List[1].(*ast.ReturnStmt)
+	mr, okmr := md.Body.List[nb-1].(*ast.ReturnStmt)
 	if !okmr || len(mr.Results) != 1 || !c.isObj(mr.Results[0], mps[0]) {
 		return false, "middlewares(): does not return the wrapped handler"
 	}
@@ -371,39 +319,21 @@ func recogniseOrCombinator(p *Program, m *RouterModel) (ok bool, why string) {
 	return true, ""
 }
 
-// reverseLoopOver: for i := len(ms)-1; i >= 0; i-- { h = ms[i].<method>(h) }
-func reverseLoopOver(c *rmCtx, fs *ast.ForStmt, h, ms types.Object, method string) bool {
-	init, ok := fs.Init.(*ast.AssignStmt)
-	if !ok || init.Tok != token.DEFINE || len(init.Lhs) != 1 {
+// reverseLoopOver: h = ms[idx].<method>(h) once per element, idx visiting len(ms)-1 … 0 (any loop spelling)
+func reverseLoopOver(c *rmCtx, loop ast.Stmt, before []ast.Stmt, h, ms types.Object, method string) bool {
+	var body *ast.BlockStmt
+	switch l := loop.(type) {
+	case *ast.ForStmt:
+		body = l.Body
+	case *ast.RangeStmt:
+		body = l.Body
+	default:
 		return false
 	}
-	i := c.info.Defs[init.Lhs[0].(*ast.Ident)]
-	be, ok := init.Rhs[0].(*ast.BinaryExpr)
-	if !ok || be.Op != token.SUB {
+	if len(body.List) != 1 {
 		return false
 	}
-	if k, ok := c.constInt(be.Y); !ok || k != 1 {
-		return false
-	}
-	lc, ok := be.X.(*ast.CallExpr)
-	if !ok || len(lc.Args) != 1 || !c.isObj(lc.Args[0], ms) {
-		return false
-	}
-	if id, ok := lc.Fun.(*ast.Ident); !ok || id.Name != "len" {
-		return false
-	}
-	cond, ok := fs.Cond.(*ast.BinaryExpr)
-	if !ok || cond.Op != token.GEQ || !c.isObj(cond.X, i) {
-		return false
-	}
-	if k, ok := c.constInt(cond.Y); !ok || k != 0 {
-		return false
-	}
-	post, ok := fs.Post.(*ast.IncDecStmt)
-	if !ok || post.Tok != token.DEC || !c.isObj(post.X, i) || len(fs.Body.List) != 1 {
-		return false
-	}
-	as, ok := fs.Body.List[0].(*ast.AssignStmt)
+	as, ok := body.List[0].(*ast.AssignStmt)
 	if !ok || as.Tok != token.ASSIGN || len(as.Lhs) != 1 || !c.isObj(as.Lhs[0], h) {
 		return false
 	}
@@ -416,7 +346,11 @@ func reverseLoopOver(c *rmCtx, fs *ast.ForStmt, h, ms types.Object, method strin
 		return false
 	}
 	ix, ok := sel.X.(*ast.IndexExpr)
-	return ok && c.isObj(ix.X, ms) && c.isObj(ix.Index, i)
+	if !ok || !c.isObj(ix.X, ms) {
+		return false
+	}
+	isSlice := func(e ast.Expr) bool { return c.isObj(e, ms) }
+	return newRevLoop(c.info, loop, before, isSlice).visitsDescending(ix.Index)
 }
 
 func runC11(r *Report) {
